@@ -19,14 +19,12 @@ package tooling
 
 import (
 	"bytes"
-	"context"
 	"fmt"
 	"math/rand"
 	"runtime"
 	"sync"
 	"testing"
 
-	"github.com/ipfs/go-cid"
 	"github.com/rpcpool/yellowstone-faithful/ipld/ipldbindcode"
 	"github.com/rpcpool/yellowstone-faithful/iplddecoders"
 	"github.com/rpcpool/yellowstone-faithful/zzverif/c14chain"
@@ -45,43 +43,7 @@ type c14Case struct {
 
 const c14Site = "tooling.LoadDataFromDataFrames"
 
-// c14Decoded caches the decoded form of the unfaulted stored frames of one chain (one worker at a time).
-// Frames whose bytes were changed by a fault are decoded afresh on every fetch.
-type c14Decoded map[string]c14DecodedEntry
-
-type c14DecodedEntry struct {
-	b0 *byte
-	df *ipldbindcode.DataFrame
-}
-
-// c14Getter serves the stored frames the way Epoch.GetDataFrameByCid does: look up by CID, decode with
-// the repository's DecodeDataFrame.
-func c14Getter(v *c14chain.View, cache c14Decoded, fetched *int) func(ctx context.Context, wanted cid.Cid) (*ipldbindcode.DataFrame, error) {
-	return func(ctx context.Context, wanted cid.Cid) (*ipldbindcode.DataFrame, error) {
-		*fetched++
-		if *fetched > 100000 {
-			return nil, fmt.Errorf("c14: fetch budget exhausted")
-		}
-		k := wanted.KeyString()
-		if v.Missing[k] {
-			return nil, fmt.Errorf("c14: frame %s is not in the archive", wanted)
-		}
-		b, ok := v.Store[k]
-		if !ok || len(b) == 0 {
-			return nil, fmt.Errorf("c14: frame %s is not in the archive", wanted)
-		}
-		if cache != nil {
-			if e, ok := cache[k]; ok && e.b0 == &b[0] {
-				return e.df, nil
-			}
-		}
-		df, err := iplddecoders.DecodeDataFrame(b)
-		if err == nil && cache != nil {
-			cache[k] = c14DecodedEntry{b0: &b[0], df: df}
-		}
-		return df, err
-	}
-}
+type c14Decoded = c14chain.Decoded
 
 // c14Carry passes the first frame through the chosen carrier and returns the value handed to the code under test.
 func c14Carry(first ipldbindcode.DataFrame, carrier string) (*ipldbindcode.DataFrame, error) {
@@ -131,7 +93,7 @@ func c14Call(first *ipldbindcode.DataFrame, v *c14chain.View, cache c14Decoded) 
 			o.panicked = r
 		}
 	}()
-	o.got, o.err = LoadDataFromDataFrames(first, c14Getter(v, cache, &o.fetched))
+	o.got, o.err = LoadDataFromDataFrames(first, c14chain.Getter(cache, &o.fetched, v))
 	return
 }
 
